@@ -238,8 +238,16 @@ def D3(m, R):
         # form (iv): return AnsiStr(self.W.<same>(...))
         if call_name(expr) == 'AnsiStr' and len(expr.args) == 1 and is_wrapped_call(expr.args[0]):
             problems = wrapped_call_problems(expr.args[0])
-            if tw_inplace or tw_mutator:
-                problems.append('twin %s needs a copy (it mutates or takes inplace)' % name)
+            if tw_mutator:
+                problems.append('twin %s mutates its receiver: calling it on the wrapped string changes this AnsiStr' % name)
+            elif tw_inplace:
+                # allowed when inplace is left at its default False: the twin then works on (and returns) its own copy
+                b_, _ = bind_call(expr.args[0], tw)
+                d_ = tw.defaults.get('inplace')
+                if 'inplace' in b_ and const_val(b_['inplace'], None) is not False:
+                    problems.append('inplace=%s is passed for the wrapped string itself: it would be modified' % short(b_['inplace']))
+                elif 'inplace' not in b_ and const_val(d_, None) is not False:
+                    problems.append('the twin\'s inplace default is not False: the wrapped string itself would be modified')
             R.check(not problems, sf, ret, 'returns AnsiStr(%s.%s(<same arguments>))' % (W, name), '; '.join(problems), construct=cons)
             continue
         # form (iii): [AnsiStr(x) for x in self.W.<same>(...)]
